@@ -238,7 +238,8 @@ func spzRawCase(d bytesDesc) hx.Case {
 // ---- generators ----
 
 var pos24Corners = []uint32{0, 1, 2, 0x7ffffe, 0x7fffff, 0x800000, 0x800001, 0xfffffe, 0xffffff,
-	0x000100, 0x010000, 0x00ff00, 0xff0000, 0x0000ff, 0x808080, 0x7f7f7f, 0x008000, 0x000080}
+	0x000100, 0x010000, 0x00ff00, 0xff0000, 0x0000ff, 0x808080, 0x7f7f7f, 0x008000, 0x000080,
+	0x3fffff, 0x400000, 0x400001, 0xbfffff, 0xc00000, 0xc00001}
 var fracCorners = []uint8{24, 31, 32, 52, 62, 63, 64, 100, 255}
 
 func genPos24(r *hx.Rng) uint32 {
@@ -376,12 +377,7 @@ func genSpzRaw(r *hx.Rng, run *hx.Run) bytesDesc {
 // every SH degree; every fractional-bit count 0..23 and the corner counts; 24-bit corner patterns;
 // half-float patterns (all 65536 in the thorough tier); zero points.
 func spzFixed(run *hx.Run, r *hx.Rng, thorough bool) {
-	for v := 0; v < 256; v++ {
-		version := uint32(1 + v%2)
-		deg := uint8((v / 2) % 4)
-		if v >= 128 {
-			deg = 3 // SH bytes need 256 values too
-		}
+	single := func(version uint32, deg uint8, v int) {
 		d := spzDesc{Magic: spzMagic, Version: version, ShDegree: deg, FracBits: uint8(v % 24)}
 		var p pointDesc
 		f := 0
@@ -390,7 +386,7 @@ func spzFixed(run *hx.Run, r *hx.Rng, thorough bool) {
 		for k := 0; k < 3; k++ {
 			p.Col[k], p.Scale[k], p.Rot[k] = next(), next(), next()
 			if version == 1 {
-				p.Pos[k] = uint32(v)<<8 | uint32(next()) // sweeps the half's sign/exponent byte
+				p.Pos[k] = uint32((v+85*k)%256)<<8 | uint32(next()) // sweeps the half's sign/exponent byte
 			} else {
 				p.Pos[k] = pos24Corners[(v+k)%len(pos24Corners)]
 			}
@@ -402,21 +398,41 @@ func spzFixed(run *hx.Run, r *hx.Rng, thorough bool) {
 		d.Points = []pointDesc{p}
 		run.Add(spzCase(d))
 	}
+	// degree 3 (all 45 SH bytes present): every byte field takes every value 0..255 in each version
+	for version := uint32(1); version <= 2; version++ {
+		for v := 0; v < 256; v++ {
+			single(version, 3, v)
+		}
+	}
+	// degrees 0..2: a sweep of 32 values per field, each version
+	for version := uint32(1); version <= 2; version++ {
+		for deg := uint8(0); deg <= 2; deg++ {
+			for v := int(deg); v < 256; v += 8 {
+				single(version, deg, v)
+			}
+		}
+	}
 	run.Count("spz:exhaustive-single-point-files")
-	// every fractional-bit count with sign-boundary positions, two points
+	// every fractional-bit count x every SH degree with sign-boundary positions, two points
 	fbs := []uint8{}
 	for fb := 0; fb < 24; fb++ {
 		fbs = append(fbs, uint8(fb))
 	}
 	fbs = append(fbs, fracCorners...)
 	for i, fb := range fbs {
-		d := spzDesc{Magic: spzMagic, Version: 2, ShDegree: uint8(i % 4), FracBits: fb}
-		for k := 0; k < 2; k++ {
-			p := genPoint(r, 2, d.ShDegree)
-			p.Pos = [3]uint32{pos24Corners[(3*i+k)%len(pos24Corners)], 0x800000 - uint32(k), uint32(k)}
-			d.Points = append(d.Points, p)
+		for deg := uint8(0); deg <= 3; deg++ {
+			d := spzDesc{Magic: spzMagic, Version: 2, ShDegree: deg, FracBits: fb}
+			for k := 0; k < 2; k++ {
+				p := genPoint(r, 2, d.ShDegree)
+				c := 3*(4*i+int(deg)) + k
+				p.Pos = [3]uint32{pos24Corners[c%len(pos24Corners)], 0x800000 - uint32(k), uint32(k)}
+				if deg%2 == 1 {
+					p.Pos[1], p.Pos[2] = 0x400000-uint32(k), 0xc00000-uint32(k) // bit-22 boundary, both signs
+				}
+				d.Points = append(d.Points, p)
+			}
+			run.Add(spzCase(d))
 		}
-		run.Add(spzCase(d))
 	}
 	// zero points, every version and degree
 	for version := uint32(1); version <= 2; version++ {
